@@ -13,6 +13,17 @@ impl Printer for Cap {
     fn println(&mut self, line: &str) { self.0.borrow_mut().push(line.to_string()); }
 }
 
+/// timestamps and intervals are carried in JSON as their text form: computed here independently of the code's Display
+fn expected_json_text(v: &J) -> Option<J> {
+    match v["t"].as_str().unwrap() {
+        "iv" => { let ms = v["ms"].as_i64().unwrap(); if ms < 0 { return Some(J::Null).filter(|_| false).or(Some(json!("\u{0}any"))); }
+                  let s = ms / 1000; Some(json!(format!("{:02}:{:02}:{:02}.{:03}", s / 3600, (s / 60) % 60, s % 60, ms % 1000))) }
+        "ts" => { let f: Vec<i64> = v["f"].as_array().unwrap().iter().map(|x| x.as_i64().unwrap()).collect();
+                  Some(json!(format!("{:04}-{:02}-{:02} {:02}:{:02}:{:02}.{:03}", f[0], f[1], f[2], f[3], f[4], f[5], f[6] / 1000))) }
+        _ => expected_json(v)
+    }
+}
+
 fn cps(v: &J) -> String { v.as_array().unwrap().iter().map(|c| char::from_u32(c.as_u64().unwrap() as u32).unwrap()).collect() }
 fn modelled(s: &J) -> Option<String> {
     let a = s.as_array().unwrap();
@@ -55,7 +66,7 @@ pub fn replay(cases: &[J]) -> J {
                                     let cols: Vec<String> = e["cols"].as_array().unwrap().iter().map(cps).collect();
                                     let row = e["row"].as_array().unwrap();
                                     m.len() == cols.len() && m.iter().zip(cols.iter().zip(row.iter())).all(|((k, v), (c, x))| {
-                                        k == c && match expected_json(x) {
+                                        k == c && match expected_json_text(x) {
                                             Some(ej) => json_eq(v, &ej),
                                             None => v.is_string() || v.is_null()     // non-finite REAL: no JSON number exists; any total encoding
                                         }
